@@ -59,6 +59,9 @@ REG = {
  'C20': ('exploration', 'recorded rate-limiter runs validated by TLC against a TLA+ acceptor (RateLimitTrace.tla)',
          'The rate limiters are driven by real time; seeded key distributions and arrival timelines are run on the native and the ulule limiter and the recorded traces are validated by TLC: per-key order-preserving subsequence without duplicates, the alignment-independent quota bound over every pair of passed items of a key, key independence, propagation of completion and error.',
          'exploration: seeded timelines; bound quota*(L div window + 2) with L over-estimated', '6/C20'),
+ 'C19': ('exploration', 'recorded runs of plain vs. instrumented pipelines (licence on/off) validated by TLC against a TLA+ acceptor (Prom.tla)',
+         'Prom.tla keeps the counters the definition names (subscriptions, notifications in/out, lag observations, per-operator processing-time observations) from the events of a plain run with counting probes and requires the instrumented runs to be observationally identical and the exported metrics to equal those counters; nothing may be exported with the licence off.',
+         'exploration: seeded random chains (Pipe1..Pipe5); requires the verif-only licence-bypass setter', '6/C19'),
 }
 NA_REASON = 'check not built yet (framework under construction); planned, see DESIGN.md section 6'
 
